@@ -122,7 +122,7 @@ def run(ctx):
                 rng_ty = g[0] if g else '?'
                 if rng_ty == 'utils::nullrng::NullRng':
                     rep.ok('R-C18-3', 'R-C18-3/finalize/%s' % b.path, 'RNG finalised with NullRng', ctx.where(b, bb))
-                elif rng_ty == 'R':
+                elif '::' not in rng_ty and '<' not in rng_ty and rng_ty[:1].isupper():          # a generic parameter, whatever its name
                     # generic: every instantiation reachable from the verifier must bind R = NullRng
                     owner = facts.root_fn(b)
                     ok_all, n = True, 0
@@ -165,7 +165,15 @@ def run(ctx):
         b = ctx.fn(suffix, 'R-C18-5', required=(suffix != 'RangeProof::<P>::prove'))
         if b is None:
             continue
-        muts = {b.local_name(i) for i in range(1, b.argc + 1) if b.local_ty(i).startswith('&mut')}
+        # by type, not by parameter name: the only exclusive borrows are of transcripts and of the caller's RNG
+        def kind(ty):
+            if 'merlin::Transcript' in ty:
+                return 'transcript' if not ty.startswith('&mut [') else 'transcripts'
+            from .C14 import is_generic_mut_ref
+            if is_generic_mut_ref(ty):
+                return 'rng'
+            return ty
+        muts = {kind(b.local_ty(i)) for i in range(1, b.argc + 1) if b.local_ty(i).startswith('&mut')}
         rep.check(muts <= allowed, 'R-C18-5', 'R-C18-5/%s' % suffix, '%s takes &mut only to %s' % (suffix, sorted(muts)),
                   '%s takes &mut to %s' % (suffix, sorted(muts - allowed)), ctx.where(b))
 
